@@ -1,6 +1,7 @@
 package treex
 
 import (
+	"encoding/json"
 	"fmt"
 	"math/big"
 	"strings"
@@ -129,6 +130,23 @@ func (cc *crashCtx) consistent(n *vnode.Node, chain []string) string {
 // RunCrash is the body of C29: for every history (tree x delivery order) and every crash point
 // (number of durable write units after which the process is dead), restart and judge.
 func RunCrash(r *vx.Run, maxN int) {
+	// -replay: only the recorded (tree, order, crash point) is run
+	onlyShape, onlyOrder, onlyC := "", "", -1
+	if raw, ok := r.Replaying(); ok {
+		var c struct {
+			Shape Shape `json:"shape"`
+			Order []int `json:"order"`
+			C     int   `json:"crash_after_units"`
+		}
+		if err := json.Unmarshal(raw, &c); err != nil {
+			fmt.Println("REPLAY-ERROR", err)
+			return
+		}
+		onlyShape, onlyOrder, onlyC = c.Shape.String(), fmt.Sprint(c.Order), c.C
+		if n := len(c.Shape.Parent); n > maxN {
+			maxN = n
+		}
+	}
 	env, err := NewEnv(nil)
 	if err != nil {
 		fmt.Println("HARNESS-ERROR", err)
@@ -152,6 +170,9 @@ func RunCrash(r *vx.Run, maxN int) {
 			if heavy > 1 {
 				continue
 			}
+			if onlyShape != "" && sh.String() != onlyShape {
+				continue
+			}
 			blocks, err := env.Build(sh)
 			if err != nil {
 				r.Note("build failed: %v", err)
@@ -173,7 +194,7 @@ func RunCrash(r *vx.Run, maxN int) {
 		n := len(h.blocks)
 		for _, order := range Perms(n) {
 			item++
-			if !r.Mine(item) {
+			if !r.Mine(item) || (onlyOrder != "" && fmt.Sprint(order) != onlyOrder) {
 				continue
 			}
 			if r.Expired("histories") {
@@ -245,6 +266,9 @@ func RunCrash(r *vx.Run, maxN int) {
 			r.Seen("distinct", fmt.Sprintf("n=%d units=%d reorg=%v", n, N, len(reached[len(reached)-1]) < TrunkLen+1+n))
 			for c := 0; c <= N; c++ {
 				c := c
+				if onlyC >= 0 && c != onlyC {
+					continue
+				}
 				// one crash point: run the history with the process dying after c durable writes, restart, judge
 				judge := func() string {
 					t := env.Fresh()
@@ -294,6 +318,9 @@ func RunCrash(r *vx.Run, maxN int) {
 					return bad
 				}
 				bad := judge()
+				if onlyC >= 0 {
+					fmt.Printf("replay: crash after %d of %d writes: %q\n", c, N, bad)
+				}
 				r.Count("executions", 1)
 				r.Count("crash_points", 1)
 				r.Count("transitions", int64(c))
